@@ -69,7 +69,18 @@ def h_hull(ctx):
             for a, b in itertools.combinations(pts, 2):
                 if abs(float(_orient(a, b, (qe[idx], qn[idx])))) < 1e-6 * scale * scale:
                     ctx.assume(False)
-    mask = vd.convexhull_mask((e, n), coordinates=(qe, qn))
+    if cfg.get("proj"):
+        # the same affine projection (concrete slopes of either sign, symbolic offsets) is applied to data and query
+        # points; hull membership is judged on the projected points
+        pa, pc = Fraction(cfg["proj"][0]), Fraction(cfg["proj"][1])
+        pb, pd = ctx.real("pb"), ctx.real("pd")
+        if not ctx.sym:
+            pa, pc = float(pa), float(pc)
+        mask = vd.convexhull_mask((e, n), coordinates=(qe, qn), projection=lambda x, y: (x * pa + pb, y * pc + pd))
+        e, n, qe, qn = e * pa + pb, n * pc + pd, qe * pa + pb, qn * pc + pd
+        pts = [(e[i], n[i]) for i in range(npts)]
+    else:
+        mask = vd.convexhull_mask((e, n), coordinates=(qe, qn))
     ctx.claim("mask has the shape of the query arrays", np.shape(mask) == qsh)
     if np.shape(mask) != qsh:
         return
@@ -299,6 +310,151 @@ def h_project_grid(ctx):
             ctx.claim("Dataset input and non-2-D input rejected", True)
 
 
+class _FakeChain:
+    "stands in for verde.Chain inside project_grid: records the steps, the fit and the grid request"
+    made = []
+
+    def __init__(self, steps):
+        self.steps = list(steps)
+        self.fit_args = None
+        self.grid_kw = None
+        _FakeChain.made.append(self)
+
+    def fit(self, coordinates, data, weights=None):
+        self.fit_args = (coordinates, data, weights)
+        return self
+
+    def grid(self, **kw):
+        self.grid_kw = dict(kw)
+        names = kw.get("data_names") or ["scalars"]
+        return xr.Dataset({names[0]: (("northing", "easting"), np.zeros((1, 1)))}, coords={"northing": [0.0], "easting": [0.0]})
+
+
+def h_project_grid_wiring(ctx):
+    """how project_grid assembles its pipeline, on a symbolic grid: which cells and coordinates are fitted, which
+    reduction runs first when antialiasing, which interpolator a method string selects, which region and spacing the
+    output grid is requested on, and what is masked. Chain / BlockReduce / interpolators / convexhull_mask are
+    recorded, not run (their behaviour is C06, C09, C03/C15 and the hull harnesses)."""
+    import verde.projections as vp
+
+    cfg = ctx.cfg
+    sh = tuple(cfg["shape"])
+    x0, y0 = ctx.real("x0"), ctx.real("y0")
+    dx, dy = ctx.real("dx"), ctx.real("dy")
+    ctx.assume(dx > 0)
+    ctx.assume(dy > 0)
+    east = np.array([x0 + j * dx for j in range(sh[1])], dtype=object if ctx.sym else float)
+    north = np.array([y0 + i * dy for i in range(sh[0])], dtype=object if ctx.sym else float)
+    vals = ctx.reals("v", sh)
+    hole = cfg.get("hole")
+    if hole:
+        vals = vals.astype(object) if ctx.sym else vals
+        vals[tuple(hole)] = float("nan")
+    name = cfg.get("name", "field")
+    grid = xr.DataArray(vals, coords={"northing": north, "easting": east}, dims=("northing", "easting"), name=name)
+    a, c = Fraction(cfg["proj"][0]), Fraction(cfg["proj"][1])
+    b, d = ctx.real("pb"), ctx.real("pd")
+    if not ctx.sym:
+        a, c = float(a), float(c)
+
+    def projection(e, n):
+        return e * a + b, n * c + d
+
+    kw = {}
+    method = cfg.get("method", "default")
+    inst = None
+    if method == "instance":
+        inst = vd.Linear()
+        kw["method"] = inst
+    elif method != "default":
+        kw["method"] = method
+    if cfg.get("antialias") is not None:
+        kw["antialias"] = cfg["antialias"]
+    antialias = cfg.get("antialias", True)  # documented default
+    cells = [(i, j) for i in range(sh[0]) for j in range(sh[1]) if not (hole and (i, j) == tuple(hole))]
+    pe = [east[j] * a + b for (i, j) in cells]
+    pn = [north[i] * c + d for (i, j) in cells]
+    data_region = (E.smin(pe), E.smax(pe), E.smin(pn), E.smax(pn))
+    region = data_region
+    if cfg.get("region_arg"):
+        rw, re_, rs, rn = ctx.real("RW"), ctx.real("RE"), ctx.real("RS"), ctx.real("RN")
+        ctx.assume(rw < re_)
+        ctx.assume(rs < rn)
+        kw["region"] = region = (rw, re_, rs, rn)
+    shape = sh
+    if cfg.get("shape_arg"):
+        kw["shape"] = shape = tuple(cfg["shape_arg"])
+    spacing = None
+    if cfg.get("spacing_arg"):
+        sp_n, sp_e = ctx.real("SPN"), ctx.real("SPE")
+        ctx.assume(sp_n > 0)
+        ctx.assume(sp_e > 0)
+        kw["spacing"] = spacing = (sp_n, sp_e)
+    hull_calls = []
+
+    def fake_hull(data_coordinates, coordinates=None, grid=None, projection=None):
+        hull_calls.append({"data_coordinates": data_coordinates, "coordinates": coordinates, "grid": grid, "projection": projection})
+        return grid
+
+    saved = (vp.Chain, vp.convexhull_mask)
+    del _FakeChain.made[:]
+    vp.Chain, vp.convexhull_mask = _FakeChain, fake_hull
+    try:
+        try:
+            out = vd.project_grid(grid, projection, **kw)
+        except ValueError:
+            ctx.claim("only an unknown method name is refused", method == "bad")
+            return
+    finally:
+        vp.Chain, vp.convexhull_mask = saved
+    ctx.claim("an unknown method name is refused", method != "bad")
+    ctx.claim("one pipeline is assembled, fitted once and gridded once", len(_FakeChain.made) == 1 and _FakeChain.made[0].fit_args is not None and _FakeChain.made[0].grid_kw is not None)
+    if not (len(_FakeChain.made) == 1 and _FakeChain.made[0].fit_args is not None and _FakeChain.made[0].grid_kw is not None):
+        return
+    ch = _FakeChain.made[0]
+    # -- steps
+    want_cls = {"default": vd.Linear, "linear": vd.Linear, "nearest": vd.KNeighbors, "cubic": vd.Cubic, "instance": vd.Linear}[method]
+    names = [s[0] for s in ch.steps]
+    last = ch.steps[-1][1]
+    ctx.claim("the last step is the interpolator the method selects (linear by default; linear/nearest/cubic by name; an instance as given)", And(type(last) is want_cls, (last is inst) if inst is not None else True))
+    if antialias:
+        ok = len(ch.steps) == 2 and isinstance(ch.steps[0][1], vd.BlockReduce)
+        ctx.claim("with antialiasing (the default) exactly one blocked reduction runs before the interpolator", ok)
+        if ok:
+            br = ch.steps[0][1]
+            ctx.claim("the antialiasing reduction is the mean", float(br.reduction(np.array([1.0, 2.0, 6.0]))) == 3.0 and float(br.reduction(np.array([-4.0, 1.0]))) == -1.5 and br.center_coordinates is False and br.adjust == "spacing")
+            brr = br.region
+            ctx.claim("antialiasing blocks tile the projected data's bounding box", brr is not None and len(brr) == 4 and And([eq(u, v) for u, v in zip(brr, data_region)]))
+    else:
+        ctx.claim("without antialiasing the interpolator is the only step", len(ch.steps) == 1)
+    # -- fit
+    fc, fd, fw = ch.fit_args
+    ok = len(fc) == 2 and np.shape(fc[0]) == (len(cells),) and np.shape(fc[1]) == (len(cells),) and np.shape(fd) == (len(cells),)
+    ctx.claim("the pipeline is fitted on the cells that carry data (one row per non-NaN cell), without weights", And(ok, fw is None))
+    if ok:
+        fdv = np.asarray(fd)
+        ctx.claim("fitted rows: projected (easting, northing) of each data cell with that cell's value, row-major", And([And(eq(fc[0][k], pe[k]), eq(fc[1][k], pn[k]), eq(fdv[k], vals[cells[k]])) for k in range(len(cells))]))
+    # -- output grid request
+    g = ch.grid_kw
+    greg = g.get("region")
+    ctx.claim("the output grid is requested on the given region, else on the projected data's bounding box", greg is not None and len(greg) == 4 and And([eq(u, v) for u, v in zip(greg, region)]))
+    gsp = g.get("spacing")
+    if spacing is not None:
+        want_sp = spacing
+    else:
+        want_sp = ((region[3] - region[2]) / (shape[0] - 1), (region[1] - region[0]) / (shape[1] - 1))
+    ok = gsp is not None and np.shape(gsp) == (2,) and "shape" not in g
+    ctx.claim("the output grid spacing is the requested one, else the spacing that puts the requested (or the input's) shape on the region, (s_north, s_east)", And(ok, And(eq(gsp[0], want_sp[0]), eq(gsp[1], want_sp[1])) if ok else False))
+    ctx.claim("the output variable takes the input's name ('scalars' if unnamed)", list(g.get("data_names") or []) == [name if name is not None else "scalars"])
+    if antialias and len(ch.steps) == 2 and isinstance(ch.steps[0][1], vd.BlockReduce):
+        bsp = ch.steps[0][1].spacing
+        ok = bsp is not None and np.shape(bsp) == (2,)
+        ctx.claim("antialiasing blocks have the size of the output grid spacing", And(ok, And(eq(bsp[0], want_sp[0]), eq(bsp[1], want_sp[1])) if ok else False))
+    # -- mask
+    ok = len(hull_calls) == 1 and hull_calls[0]["grid"] is not None and hull_calls[0]["coordinates"] is None and hull_calls[0]["projection"] is None
+    ctx.claim("the gridded result is masked once by the convex hull of the projected data cells", ok and hull_calls[0]["data_coordinates"] is fc or (ok and And([And(eq(hull_calls[0]["data_coordinates"][0][k], pe[k]), eq(hull_calls[0]["data_coordinates"][1][k], pn[k])) for k in range(len(cells))])))
+
+
 def h_project_grid_antialias(ctx):
     "with antialiasing (blocked mean, then linear interpolation) values stay within the range of the input"
     cfg = ctx.cfg
@@ -359,6 +515,22 @@ HARNESSES = [
         timeout_s=1200,
     ),
     Harness(
+        "project_grid_wiring",
+        h_project_grid_wiring,
+        lambda tier, seed: [
+            {"shape": (2, 2), "proj": ("2", "3")},
+            {"shape": (2, 3), "proj": ("-2", "1/2"), "method": "nearest", "antialias": True, "hole": (0, 1)},
+            {"shape": (3, 2), "proj": ("1/2", "-1"), "method": "cubic", "antialias": False, "region_arg": True, "name": None},
+            {"shape": (2, 2), "proj": ("2", "3"), "method": "linear", "spacing_arg": True, "region_arg": True},
+            {"shape": (2, 3), "proj": ("3", "2"), "method": "instance", "shape_arg": (3, 2)},
+            {"shape": (2, 2), "proj": ("2", "3"), "method": "bad"},
+        ],
+        bounds="2x2 / 2x3 / 3x2 symbolic grid (origin, positive steps, values; optional NaN hole), affine projection with concrete slopes of either sign and symbolic offsets; method default / 'linear' / 'nearest' / 'cubic' / instance / unknown; antialias default / True / False; optional symbolic region, spacing, concrete shape",
+        stubs=["verde.projections.Chain -> recorder (steps, fit arguments, grid request)", "verde.projections.convexhull_mask -> recorder"],
+        engine={"oneshot": True},
+        outside="what the recorded pipeline computes (C06 chain plumbing, C09 block mean, interpolators, hull harnesses)",
+    ),
+    Harness(
         "project_grid_antialias",
         h_project_grid_antialias,
         lambda tier, seed: [{"shape": (3, 3), "proj": ("2", "3")}] if tier == "thorough" else [],
@@ -372,8 +544,8 @@ HARNESSES = [
     Harness(
         "convexhull_mask",
         h_hull,
-        lambda tier, seed: [{"npts": 3, "qshape": (1,)}] + ([{"npts": 4, "qshape": (1,)}, {"npts": 3, "qshape": (1, 2)}] if tier == "thorough" else []),
-        bounds="3 (quick) / 4 (thorough) fully symbolic data points (any scale and offset, non-degenerate) and 1-2 fully symbolic query points",
+        lambda tier, seed: [{"npts": 3, "qshape": (1,)}, {"npts": 3, "qshape": (1,), "proj": ("2", "-1/2")}] + ([{"npts": 4, "qshape": (1,)}, {"npts": 3, "qshape": (1, 2)}] if tier == "thorough" else []),
+        bounds="3 (quick) / 4 (thorough) fully symbolic data points (any scale and offset, non-degenerate) and 1-2 fully symbolic query points; optional affine projection (concrete slopes of either sign, symbolic offsets) of data and query points alike",
         stubs=["scipy.spatial.Delaunay -> hull-membership contract on the points as passed"],
         extra_globals=_globals,
         engine={"oneshot": True, "keyed_sqrt": True, "sqrt_pos_axiom": True, "div_elim": True, "timeout_ms": 60000},
